@@ -1,12 +1,69 @@
 /- Driver operations of property C18 (ops are named "c18.<name>"). Core + Lean.Data.Json only. -/
 import Reamber.Util.Json
+import Reamber.Model.Hitsound
+import Reamber.Spec.Hitsound
 
 open Lean Reamber.J
 
 namespace Reamber.C18
 
-def handle (op : String) (_j : Json) : Except String Json :=
+open Reamber.Hitsound
+
+/-- a note is `[offset, column, length|null, hitsound_set, sample_set, addition_set, custom_set, volume, file]`,
+`file` an array of code points -/
+def noteOfJson (j : Json) : Except String Note :=
+  match j with
+  | Json.arr #[o, c, l, hs, ss, ad, cs, v, f] => do
+    .ok ⟨← ratOf? o, ← intOf? c, ← optOf? ratOf? l, ← natOf? hs, ← intOf? ss, ← intOf? ad, ← intOf? cs, ← intOf? v,
+         ← arrOf? natOf? f⟩
+  | _ => .error s!"note expected 9 fields: {j}"
+
+def noteToJson (n : Note) : Json :=
+  Json.arr #[ratToJson n.offset, intToJson n.column, optToJson ratToJson n.length, natToJson n.hs, intToJson n.sampleSet,
+             intToJson n.additionSet, intToJson n.customSet, intToJson n.volume, listToJson natToJson n.file]
+
+def evOfJson (j : Json) : Except String Ev :=
+  match j with
+  | Json.arr #[o, f, v] => do .ok ⟨← ratOf? o, ← arrOf? natOf? f, ← intOf? v⟩
+  | _ => .error s!"event sample expected [offset, file, volume]: {j}"
+
+def evToJson (e : Ev) : Json := Json.arr #[ratToJson e.offset, listToJson natToJson e.file, intToJson e.volume]
+
+def chartOfJson (j : Json) : Except String Chart := do
+  .ok ⟨← getArr noteOfJson j "hits", ← getArr noteOfJson j "holds", ← getArr evOfJson j "samples"⟩
+
+def chartToJson (c : Chart) : Json :=
+  obj [("hits", listToJson noteToJson c.hits), ("holds", listToJson noteToJson c.holds),
+       ("samples", listToJson evToJson c.samples)]
+
+def getChart (j : Json) (k : String) : Except String Chart := do chartOfJson (← field j k)
+
+def optPerm (j : Json) (k : String) : Except String (Option (List Nat)) :=
+  optOf? (arrOf? natOf?) (fieldD j k Json.null)
+
+def handle (op : String) (j : Json) : Except String Json := do
   match op with
+  | "c18.copy" =>
+    let src ← getChart j "src"
+    let tgt ← getChart j "tgt"
+    let σs ← optPerm j "sigma_s"
+    let σt ← optPerm j "sigma_t"
+    let σs' := σs.getD (stableArgsort (((concatNotes src).filter active).map (·.offset)))
+    let σt' := σt.getD (stableArgsort ((concatNotes tgt).map (·.offset)))
+    .ok (okJson (chartToJson (copyWith σs' σt' src tgt)))
+  | "c18.spec" =>
+    let src ← getChart j "src"
+    let tgt ← getChart j "tgt"
+    let out ← getChart j "out"
+    .ok (okJson (obj [("notes_preserved", Json.bool (notesPreservedB tgt out)),
+                      ("counts_le", Json.bool (countsLeB src out)),
+                      ("no_invention", Json.bool (noInventionB src out)),
+                      ("samples_conserved", Json.bool (samplesConservedB src out)),
+                      ("all_placed_if_room", Json.bool (allPlacedIfRoomB src out))]))
+  | "c18.dom" =>
+    let src ← getChart j "src"
+    let tgt ← getChart j "tgt"
+    .ok (okJson (obj [("no_sep", Json.bool (noSep src)), ("holds_have_length", Json.bool (holdsHaveLength tgt))]))
   | _ => .error s!"unknown op {op}"
 
 end Reamber.C18
